@@ -765,6 +765,9 @@ func (w *World) fieldMutations(within map[*ssa.Function]bool) map[string][]field
 						if _, fresh := fa.X.(*ssa.Alloc); fresh {
 							continue // initialisation of an object allocated in this function
 						}
+						if w.callLocalPtr(fa.X) {
+							continue // an object living in a local variable of a caller, handed down by address
+						}
 						if pt, ok := fa.X.Type().Underlying().(*types.Pointer); ok {
 							if n, ok := pt.Elem().(*types.Named); ok && n.Obj().Pkg() == w.TPkg {
 								k := n.Obj().Name() + "." + w.fieldName(n.Obj().Name(), fa.Field)
@@ -783,6 +786,9 @@ func (w *World) fieldMutations(within map[*ssa.Function]bool) map[string][]field
 					// scratch array) is mutated through its address: handing the address to
 					// a call, boxing it in an interface or storing it keeps state in the field
 					if _, fresh := x.X.(*ssa.Alloc); fresh {
+						continue
+					}
+					if w.callLocalPtr(x.X) {
 						continue
 					}
 					pt, ok := x.X.Type().Underlying().(*types.Pointer)
